@@ -7,6 +7,7 @@ SCRATCH = '/tmp/wt/scratch'
 SRC = sys.argv[1] if len(sys.argv) > 1 else '/tmp/mut'
 OFFSET = int(sys.argv[2]) if len(sys.argv) > 2 else 0
 ROUND = sys.argv[3] if len(sys.argv) > 3 else '1'
+FIRST = json.load(open(os.path.join(SRC, 'firstrun.json'))) if os.path.exists(os.path.join(SRC, 'firstrun.json')) else {}
 
 def sh(*a):
     return subprocess.run(a, capture_output=True, text=True)
@@ -26,7 +27,19 @@ for p in sorted(glob.glob(os.path.join(SRC, 'C*', '*', 'patch.diff'))):
     shutil.copy(os.path.join(d, demo), os.path.join(out, demo))
     sh('git', '-C', SCRATCH, 'checkout', '--', '.')
     r = sh('git', '-C', SCRATCH, 'apply', p)
-    assert r.returncode == 0, r.stderr
+    rebased = False
+    if r.returncode != 0:
+        # the patch was written against an older baseline (before a later fix: commit): rebase it with a 3-way apply
+        r = sh('git', '-C', SCRATCH, 'apply', '--3way', p)
+        changed = sh('git', '-C', SCRATCH, 'diff', 'HEAD', '--name-only').stdout.split()
+        conflict = any('<<<<<<<' in open(os.path.join(SCRATCH, f)).read() for f in changed)
+        if r.returncode != 0 or conflict:
+            sh('git', '-C', SCRATCH, 'reset', '-q'); sh('git', '-C', SCRATCH, 'checkout', '--', '.')
+            print('NEEDS MANUAL REBASE', d)
+            continue
+        open(os.path.join(out, 'patch.diff'), 'w').write(sh('git', '-C', SCRATCH, 'diff', 'HEAD').stdout)
+        sh('git', '-C', SCRATCH, 'reset', '-q')
+        rebased = True
     rr = sh('/venv/bin/python', os.path.join(ROOT, 'check.py'), pid, '--repo', SCRATCH, '--no-evidence')
     sh('git', '-C', SCRATCH, 'checkout', '--', '.')
     rules = sorted(set(re.findall(r'rule ([A-Z0-9][A-Z0-9.\-]+):', rr.stdout)))
@@ -38,6 +51,8 @@ for p in sorted(glob.glob(os.path.join(SRC, 'C*', '*', 'patch.diff'))):
         'mechanism': meta.get('mechanism'),
         'needs_to_manifest': meta.get('needs_to_manifest'),
         'round': ROUND,
+        'first_run': FIRST.get(pid, [None] * 9)[int(k) - 1] if FIRST else None,
+        'rebased': rebased,
         'origin': 'written by an independent sub-agent that saw only the property text and a scratch worktree (nothing from /verif)',
         'baseline_commit': base_commit,
         'what_was_run': {
